@@ -143,6 +143,9 @@ func genStr(r *core.Run, label string) string {
 // strLens collects the lengths of the strings generated for the current run's value.
 var strLens []int
 
+// badDigests counts the digests of wrong length generated for the current run's value.
+var badDigests int
+
 func genBytes(r *core.Run, max int, label string) []byte {
 	n := r.Intn(max+1, label+"-len")
 	b := make([]byte, n)
@@ -164,6 +167,11 @@ func genSP(r *core.Run) *eventlog.SP800155Event3 {
 func genDigest(r *core.Run) *eventlog.TaggedDigest {
 	alg := []uint16{0x4, 0xB, 0xC}[r.Intn(3, "alg")]
 	size := map[uint16]int{0x4: 20, 0xB: 32, 0xC: 48}[alg]
+	if r.Chance(5, "digest-wrong-length?") {
+		// out of range: a digest shorter or longer than its algorithm's size must be refused
+		size += []int{-1, 1, 16, -size}[r.Intn(4, "digest-length-delta")]
+		badDigests++
+	}
 	d := make([]byte, size)
 	for i := range d {
 		d[i] = byte(r.Intn(256, "digest"))
@@ -239,11 +247,11 @@ func c18HobBoundary(r *core.Run) {
 }
 
 func runC18(r *core.Run) {
-	strLens = nil
-	defer func() { strLens = nil }()
+	strLens, badDigests = nil, 0
+	defer func() { strLens, badDigests = nil, 0 }()
 	if r.Chance(6, "hob-boundary?") {
 		c18HobBoundary(r)
-		strLens = nil
+		strLens, badDigests = nil, 0
 	}
 	// the value under test and a factory for empty values of its type
 	var v streamable
@@ -268,7 +276,7 @@ func runC18(r *core.Run) {
 		name, gen, fresh = "EfiGUID", func() streamable { return &eventlog.EfiGUID{UUID: uuid.UUID{9, 8, 7, byte(r.Intn(256, "g"))}} }, func() streamable { return &eventlog.EfiGUID{} }
 	}
 	v = gen()
-	outOfRange, longest := false, 0
+	outOfRange, longest := badDigests > 0, 0
 	for _, n := range strLens {
 		if n > 254 {
 			outOfRange = true
@@ -289,7 +297,7 @@ func runC18(r *core.Run) {
 		return
 	}
 	if outOfRange {
-		r.Fail("truncation-accepted", name+"/out-of-range", "%s: a value with an out-of-range field (a %d-character string for a one-byte size) was encoded instead of refused", name, longest)
+		r.Fail("truncation-accepted", name+"/out-of-range", "%s: a value with an out-of-range field (longest string %d characters for a one-byte size; %d digests of a length other than their algorithm's) was encoded instead of refused", name, longest, badDigests)
 	}
 	r.Eventf("codec %s, encoding %d bytes", name, len(full))
 	decode := func(rd io.Reader) (streamable, error) {
@@ -309,9 +317,9 @@ func runC18(r *core.Run) {
 	// a long-lived destination: decoding into a value that already holds another decoded record
 	// gives what decoding into a fresh one gives
 	if r.Chance(50, "reused-destination?") {
-		save := strLens
+		save, saveBad := strLens, badDigests
 		prior := gen()
-		strLens = save
+		strLens, badDigests = save, saveBad
 		if pb, perr := enc(prior); perr == nil {
 			dst := fresh()
 			if err := dst.Unmarshal(bytes.NewReader(pb)); err == nil {
